@@ -1264,6 +1264,9 @@ def make_builtins(I):
             t = v.spec.get("type")
             if t is not None:
                 return t
+        from .interp import GenObj, AbsGen
+        if isinstance(v, (GenObj, AbsGen)):
+            return Opaque("generator-type", {"token": "type", "truth": True, "attrs": {"__name__": "generator", "__qualname__": "generator"}})
         raise EngineError(f"type() of {v!r}")
 
     @reg("bool")
